@@ -48,7 +48,9 @@ ASSUMPTIONS = ["token patterns never match the empty string (the real tokenizer 
                "every match of `re` ends inside its line (hypothesis `ReIn` of tok_orig_text / node_orig_text; checked "
                "by the driver on every request: `tableOk`)",
                "lines of a list-of-lines input contain no '\\n'",
-               "span matchers have a named group (the code reads match.lastgroup)"]
+               "span matchers have a named group (the code reads match.lastgroup)",
+               "texts are sequences of Unicode scalar values (lone surrogates are never generated: the protocol's "
+               "Char.ofNat has no value for them)"]
 
 
 # ------------------------------------------------------------------ configurations and grammars
@@ -88,6 +90,17 @@ CONFIGS = [
          lexW=["ab", "b"], lexN=["<<x>>", "<<\n>>", "<< /*\n*/ >>"], lexS=[";"],
          fill=["/* */", "/*\n*/", "/* <<\n>> */"], extra=["if", "12", "/*", "*/", "<<", ">>"], bad=["?", "*"],
          alpha="a1 ;/*<>\n"),
+    # characters that text-handling code is tempted to normalise are ordinary characters here: BOM, NUL, zero-width
+    # space/joiners, soft hyphen, word joiner are blanks of this language (rstrip does NOT remove them), combining
+    # marks and astral letters are letters; a column is a count of characters (code points), not a display width
+    dict(name="unicode",
+         pat=r"""(?P<SPACE>[\s\ufeff\u200b\u200c\u200d\u2060\u00ad\x00]+)
+                 |(?P<WORD>[a-z\u00e9\u0301\u0308\U00010400\U0001F600]+)|(?P<NUM>[0-9]+)|(?P<SEMI>;)""",
+         W="WORD", N="NUM", S="SEMI",
+         lexW=["ab", "e\u0301", "\U00010400b", "a\U0001F600", "\xe9", "a\u0308\u0301"], lexN=["12", "7"], lexS=[";"],
+         fill=["\ufeff", "\u200b", "\x00", "\u00ad", "\u2060", "\xa0", "\u3000", "\r", "\t", "\u200d", " \ufeff\n"],
+         extra=[], bad=["?", "\u0300", "\u202e", "\U0001F601"],
+         alpha="a\u0301 ;\n\t\r\ufeff\u200b\x00\U0001F600?1"),
     dict(name="suite",
          pat=r"""
             (?P<SPACE>\s+)
@@ -572,6 +585,20 @@ def oracle(case, replies):
         toks, err = list(_tokenizer(p["cfg"]).tokenize(text, "t")), None
     except ll.LexicalError as e:
         toks, err = None, e
+    # the same text as a str and as the list of its (right-stripped) lines is the same text: same outcome, same spans
+    if kind == "s":
+        try:
+            toks_l, err_l = list(_tokenizer(p["cfg"]).tokenize(_vis_lines(kind, text), "t")), None
+        except ll.LexicalError as e:
+            toks_l, err_l = None, e
+        if (err is None) != (err_l is None):
+            return "str-vs-lines: as a str the text gives %s, as the list of its lines %s" % (
+                "LexicalError" if err else "tokens", "LexicalError" if err_l else "tokens")
+        if err is not None and err.src_pos.coords != err_l.src_pos.coords:
+            return "str-vs-lines: LexicalError at %s for the str, at %s for the list of its lines" % (
+                err.src_pos.coords, err_l.src_pos.coords)
+        if err is None and [(t.name, t.span) for t in toks] != [(t.name, t.span) for t in toks_l]:
+            return "str-vs-lines: the str and the list of its lines give different token spans"
     ref = _ref_first_gap(cfg, _vis_lines(kind, text))
     if ref[0] == "lex":
         if err is None:
@@ -603,6 +630,10 @@ def oracle(case, replies):
         if got != enc_str(full[o(s):o(e)]):
             return "tok-orig-text: get_orig_text of %s is not the text between its positions" % t
         line = olines[s[0] - 1]
+        # spans index the caller's own text: text_lines[line-1][col-1 : end_col-1] is what get_orig_text returns
+        if s[0] == e[0] and got != enc_str(line[s[1] - 1:e[1] - 1]):
+            return "tok-orig-text: get_orig_text of %s is not text_lines[%d][%d:%d] of the caller's text" % (
+                t, s[0] - 1, s[1] - 1, e[1] - 1)
         msg = None
         # a str is documented to be right-stripped line by line: the lexeme may be read on either form
         for strip in ((False, True) if kind == "s" else (False,)):
@@ -694,6 +725,13 @@ def oracle(case, replies):
             if _orig(e, text) != enc_str(full[o(a):o(b)]):
                 return "node-orig-text: get_orig_text of node %s is not the text between its positions" % e.name
         res[smart] = (_shape(root), spans)
+        if kind == "s" and smart == 1:
+            try:
+                root_l = parser.parse(_vis_lines(kind, text), do_cleanup=False, src_name="t")
+            except ll.Error as x:
+                return "str-vs-lines: the str is parsed, the list of its lines raises %s" % type(x).__name__
+            if [x.span for x in _walk(root_l)] != [x.span for x in _walk(root)]:
+                return "str-vs-lines: the str and the list of its lines give different node spans"
     if len(res) == 2 and res[0][0] == res[1][0] and res[0][1] != res[1][1]:
         return "node-smart: spans depend on smart_factorization"
     # the default mode (do_cleanup=True) renames / squashes nodes but every node it keeps is a node of the raw
@@ -774,6 +812,40 @@ def _gen_text(rng, cfg, gi, tier):
     return "".join(parts), mode
 
 
+# characters that code handling text is tempted to drop, fold or count differently
+TEMPTING = ["\ufeff", "\ufeff", "\x00", "\u200b", "\u200d", "\u200c", "\xa0", "\u2003", "\u3000", "\u00ad", "\u2060",
+            "\u0301", "\u0308", "\U0001F600", "\U00010400", "\r", "\t", "\x0c", "\x85", "\u2028"]
+
+
+def _tempt(rng, s):
+    """put such characters at the start of the text, at the start / end of a line, inside a token, or turn line ends
+    into '\r\n'; returns the new text and the places used"""
+    places = set()
+    for _ in range(rng.choice([1, 1, 1, 2, 3])):
+        c = rng.choice(TEMPTING)
+        where = rng.choice(["text-start", "text-start", "line-start", "line-end", "inside", "crlf"])
+        lines = s.split("\n")
+        if where == "text-start":
+            s = c + s
+        elif where == "crlf":
+            s = s.replace("\n", "\r\n") if rng.random() < 0.5 else s.replace("\n", "\r\n", 1)
+        else:
+            i = rng.randrange(len(lines))
+            l = lines[i]
+            if where == "line-start":
+                l = c + l
+            elif where == "line-end":
+                l = l + c
+            else:
+                letters = [j for j in range(1, len(l)) if l[j - 1].isalnum() and l[j].isalnum()]
+                j = rng.choice(letters) if letters else rng.randrange(len(l) + 1)
+                l = l[:j] + c + l[j:]
+            lines[i] = l
+            s = "\n".join(lines)
+        places.add(where)
+    return s, places
+
+
 def _gen_gots(rng, lines, n):
     out = []
     nl = len(lines)
@@ -810,11 +882,15 @@ def gen_cases(rng, tier):
         if gi is not None and rng.random() < 0.25:
             gi = rng.choice(BACKTRACKING)
         s, mode = _gen_text(rng, cfg, gi, tier)
+        meta = {"gen": mode}
+        if rng.random() < 0.22:
+            s, places = _tempt(rng, s)
+            meta["tempt"] = sorted(places)
         kind = rng.choice("sssslllt")
         text = s if kind == "s" else s.split("\n")
         olines = text.split("\n") if kind == "s" else text
         yield make_case({"cfg": ci, "kind": kind, "text": text, "g": gi,
-                         "gots": _gen_gots(rng, olines, rng.choice([0, 1, 2]))}, {"gen": mode})
+                         "gots": _gen_gots(rng, olines, rng.choice([0, 1, 2]))}, meta)
 
 
 def corpus():
@@ -886,6 +962,16 @@ def tags(case, replies):
     lines = p["text"].split("\n") if p["kind"] == "s" else p["text"]
     if any(ord(c) > 127 for l in lines for c in l):
         yield "has:non-ascii"
+    for w in m.get("tempt", ()):
+        yield "tempt:" + w
+    flat = "\n".join(lines)
+    if flat[:1] == "\ufeff":
+        yield "has:bom-at-start"
+    for name, chars in (("bom", "\ufeff"), ("nul", "\x00"), ("zero-width", "\u200b\u200c\u200d\u2060\u00ad"),
+                        ("combining", "\u0301\u0308\u0300"), ("astral", "\U0001F600\U00010400\U0001F601"),
+                        ("cr", "\r"), ("tab", "\t"), ("unicode-space", "\xa0\u2003\u3000\x85\u2028")):
+        if any(c in flat for c in chars):
+            yield "char:" + name
     yield "lines:%d" % min(len(lines), 6)
     if any(l.strip() == "" for l in lines[:-1]):
         yield "has:blank-line"
@@ -931,7 +1017,7 @@ LEVEL_TEXT = (
     "shape (node_span), get_orig_text of nodes, LexicalError at the first and only reachable unmatched character "
     "(line 1-based, column 0-based) and its converse, ParsingError.src_pos = start of a token, totality (fuel) of the "
     "tokenizer model. Model = code is established by a differential run of the compiled model against the real "
-    "tokenizer, get_orig_text and parser (6 configurations, 14 grammars incl. 5 that roll back into empty "
+    "tokenizer, get_orig_text and parser (7 configurations incl. one where BOM / NUL / zero-width characters are blanks and combining marks / astral characters are letters, texts with such characters at the start of the text, of a line, inside tokens, '\\r' and '\\r\\n' line ends; 14 grammars incl. 5 that roll back into empty "
     "alternatives and a ProdSequence, both smart_factorization values, str / list / tuple input); the oracle restates "
     "the property on the real objects.")
 LEVEL_NOTE = (
